@@ -300,6 +300,21 @@ def d2_taint(ctx, idx):
                     'create_debuglog uses the raw submission in `%s`; ItemGrader.__call__ calls it before ensure_text_inputs and outside '
                     'the guard, so non-text input raises TypeError there instead of being refused with ConfigError'
                     % short(lib.enclosing_stmt(n)), lib.loc(cd, n), expected='str(student_input) / map(str, student_input)')
+        # ... and on arbitrary author-supplied option values: registered defaults may hold objects (credit schedules, samplers,
+        # functions are legal option values), so serialising them needs a fallback (F11)
+        from ..effects import FunctionEffects
+        cfx = FunctionEffects(cd, idx)
+        for c in walk_own(cd.node):
+            if isinstance(c, ast.Call) and nf.callee_name(c) in ('dumps', 'dump') and c.args:
+                org = cfx.origins(c.args[0])
+                from_config = any(o[0] in ('self', 'selfobj', 'global') for o in org)
+                has_default = lib.get_kw(c, 'default') is not None
+                r.check(has_default or not from_config, 'AbstractGrader.create_debuglog: `%s`' % short(c),
+                        'JSON serialisation of configuration values has a `default=` fallback',
+                        'json.dumps is applied to option values (`%s`) without a `default=` fallback: an option value that is an object '
+                        '(e.g. a registered default attempt_based_credit=ReciprocalCredit()) raises TypeError here, outside the guard of '
+                        '__call__, so every call of the grader dies with a non-library exception' % short(c.args[0]),
+                        lib.loc(cd, c), expected='json.dumps(..., default=repr)')
         # subclasses of the family must not add entry points that bypass: every override returns super().__call__
         for fi in impls:
             if fi.qualname == AG + '.__call__':
@@ -314,6 +329,21 @@ def d2_taint(ctx, idx):
                     ok = False
                     r.violation(fi.qualname, 'an override of __call__ returns `%s` instead of delegating to '
                                 'super().__call__: the guarded pipeline is bypassed' % short(v), lib.loc(fi, ret))
+                    continue
+                # the delegation hands on everything edX passed: the submission and the extra keyword arguments (the attempt number
+                # reaches apply_attempt_based_credit only through the **kwargs every override forwards)
+                kwname = fi.node.args.kwarg.arg if fi.node.args.kwarg is not None else None
+                if kwname is not None:
+                    fwd = any(k.arg is None and isinstance(k.value, ast.Name) and k.value.id == kwname for k in v.keywords)
+                    if not fwd:
+                        ok = False
+                        r.violation(fi.qualname, 'the delegation `%s` does not forward **%s: keyword arguments passed by edX (the attempt '
+                                    'number) are dropped on this path, so attempt-based credit raises "Attempt number not passed" although '
+                                    'it was passed' % (short(v), kwname), lib.loc(fi, ret), expected='super().__call__(expect, student_input, **%s)' % kwname)
+                if not any(isinstance(a, ast.Name) and a.id == 'student_input' for a in v.args) and \
+                        not any(isinstance(k.value, ast.Name) and k.value.id == 'student_input' for k in v.keywords):
+                    ok = False
+                    r.violation(fi.qualname, 'the delegation `%s` does not pass the (validated) student_input on' % short(v), lib.loc(fi, ret))
             # falling off the end returns None
             falls = [p for p, lab in cfg.exit_return.preds if not (p.kind == 'stmt' and isinstance(p.ast, ast.Return))]
             if falls:
@@ -613,6 +643,30 @@ def d5_translations(ctx, idx):
         call = lib.one_call(fi, 'raw_parse')
         tr = lib.enclosing_try(call)
         _expect_translation(r, idx, fi, tr, call, {'ParseException': 'UnableToParse'}, 'MathParser.parse')
+        # pyparsing raises ParseSyntaxException (a ParseFatalException -- NOT a ParseException) when an element after an error
+        # stop (`a - b`) fails; a grammar that contains such a stop needs a handler for it, or the unparseable formula leaves
+        # parse() untranslated and is replaced by the generic error
+        try:
+            from .. import grammar as _grammar
+            g = _grammar.extract(idx)
+            stops = [t for t in g.error_stops if g.reachable(t)]
+        except AnalysisError as e:
+            stops = None
+            r.undecided('MathParser.parse: error stops', 'grammar not analysable: %s' % e, fi.loc)
+        if stops is not None:
+            caught = set()
+            for h in (tr.handlers if tr is not None else []):
+                caught.update(lib.handler_class_names(h))
+            wide = caught & {'ParseBaseException', 'ParseFatalException', 'ParseSyntaxException', 'Exception', 'BaseException'}
+            if stops and not wide:
+                t0 = stops[0]
+                r.violation('MathParser.parse: error stops', 'the grammar contains %d error stop(s) (`a - b`, e.g. `%s`): when the part after '
+                            'the stop fails pyparsing raises ParseSyntaxException, which is not a ParseException, so `except %s` does not '
+                            'translate it: the student gets the generic "Could not check input" error instead of UnableToParse'
+                            % (len(stops), short(getattr(t0, 'node', None)) if getattr(t0, 'node', None) is not None else '-', '/'.join(sorted(caught)) or '?'),
+                            lib.loc(fi, tr) if tr is not None else fi.loc, expected='no error stop, or except ParseBaseException')
+            else:
+                r.ok('MathParser.parse: error stops', 'none in the grammar' if not stops else 'handled by %s' % sorted(wide), fi.loc, nontrivial=bool(stops))
         fi = idx.func(MP + '.raw_parse')
         v = lib.calls_named(fi.node, 'validate')
         p = lib.calls_named(fi.node, 'parseString')
@@ -1044,6 +1098,11 @@ def d8_unbound(ctx, idx):
 
 # ------------------------------------------------------------------------ self-test
 MUTANTS = [
+    Mutant('grammar-error-stop-escapes-translation (seed C02h)', EXPR, '        parentheses = Group(Suppress("(") +\n', '        parentheses = Group(Suppress("(") -\n', 'D5'),
+    Mutant('debuglog-json-without-fallback (F11)', BASE, "json.dumps(self.modified_defaults, default=repr)", "json.dumps(self.modified_defaults)", 'D2'),
+    Mutant('override-drops-kwargs (seed C17g)', 'mitxgraders/stringgrader.py',
+           "        return super(StringGrader, self).__call__(expect, student_input, **kwargs)",
+           "        if expect == '':\n            return super(StringGrader, self).__call__(expect, student_input)\n        return super(StringGrader, self).__call__(expect, student_input, **kwargs)", 'D2'),
     Mutant('suggestion-appended-before-format (F9)', EXPR, '            varnames = "\', \'".join(sorted(bad_vars))\n            message = "Invalid Input: \'{}\' not permitted in answer as a variable".format(varnames)\n\n            # Check to see if there is a different case version of the variable\n            caselist = set()\n            for var2 in bad_vars:\n                for var1 in variables:\n                    if var1.lower() == var2.lower():\n                        caselist.add(var1)\n            if len(caselist) > 0:\n                betternames = "\', \'".join(sorted(caselist))\n                message += " (did you mean \'" + betternames + "\'?)"\n\n            raise UndefinedVariable(message)\n', '            varnames = "\', \'".join(sorted(bad_vars))\n            message = "Invalid Input: \'{}\' not permitted in answer as a variable"\n\n            # Check to see if there is a different case version of the variable\n            caselist = set()\n            for var2 in bad_vars:\n                for var1 in variables:\n                    if var1.lower() == var2.lower():\n                        caselist.add(var1)\n            if len(caselist) > 0:\n                betternames = "\', \'".join(sorted(caselist))\n                message += " (did you mean \'" + betternames + "\'?)"\n\n            raise UndefinedVariable(message.format(varnames))\n', 'D7'),
     Mutant('parse-message-concatenates-input', EXPR, "            msg = \"Invalid Input: Could not parse '{}' as a formula\"\n            raise UnableToParse(msg.format(expression))",
            "            msg = \"Invalid Input: Could not parse '{}' as a formula: \" + expression\n            raise UnableToParse(msg.format(expression))", 'D7'),
